@@ -140,11 +140,11 @@ Definition opt_rec (t : tg) (fields : list N) (body : list fop) : list srec :=
 
 Definition fx_types (s : sst) : list srec := flat_map (fun ct => opt_rec (snd ct) [fst ct] []) (t_types s).
 
-(* the import loop asks `import.get_tag()` outside of `if !import.deleted`: deleted entries are reported too *)
+(* the import loop builds the record inside `if !import.deleted`, next to the emission of the import *)
 Fixpoint fx_imports_from (pos : N) (l : list imp) (tags : list (N * N)) : list srec :=
   match l with
   | [] => []
-  | i :: l' => opt_rec (lookup tags pos) [i_sp i; i_fp i] [] ++ fx_imports_from (pos + 1) l' tags
+  | i :: l' => (if i_del i then [] else opt_rec (lookup tags pos) [i_sp i; i_fp i] []) ++ fx_imports_from (pos + 1) l' tags
   end.
 Definition fx_imports (s : sst) : list srec := fx_imports_from 0 (m_imports (t_m s)) (t_imp_tag s).
 
